@@ -192,6 +192,12 @@ class Engine:
             if desc in ('str', 'callable'):
                 st.assume(z3.Not(run_isnone(v.term)))
             return v
+        if desc == 'binarizer':
+            v = OpaqueV(fresh(name, Opaque), 'binarizer')
+            st.assume(z3.Not(run_isnone(v.term)))
+            return v
+        if desc == 'optbinarizer':
+            return OpaqueV(fresh(name, Opaque), 'binarizer')
         if desc == 'rngstate':
             return OpaqueV(fresh(name, Rng), 'rngstate')
         if desc == 'none':
@@ -213,6 +219,11 @@ class Engine:
                     cols[c] = fresh(name + '_' + c, z3.ArraySort(Arm, VKIND_SORT[kind]))
                     vk[c] = kind
                 return st.alloc(MapO(fresh(name + '_keys', ASeq), cols, vk), fresh=False)
+            if k == 'dict':
+                return st.alloc(MapO(fresh(name + '_keys', ASeq),
+                                     {'#keys': fresh(name + '_ikeys', z3.ArraySort(Arm, ASeq)),
+                                      '#vals': fresh(name + '_ivals', z3.ArraySort(Arm, RArr))},
+                                     {'#keys': 'dict.keys', '#vals': 'dict.vals'}), fresh=False)
             if k in VKIND_SORT:
                 return st.alloc(MapO(fresh(name + '_keys', ASeq),
                                      {'': fresh(name, z3.ArraySort(Arm, VKIND_SORT[k]))}, {'': k}), fresh=False)
